@@ -2,7 +2,7 @@
    This file contains only the property theorems; proofs are in ExprProofs.v and
    Gen/Obligations.v. *)
 From PFDL Require Import Expr ExprProofs.
-From PFDL.Gen Require Import Operators Obligations.
+From PFDL.Gen Require Import Operators ObligationsOps.
 
 (* Whenever ordinary arithmetic, comparison and boolean semantics ([ref_bool]: numbers
    in Q, division defined for non-zero divisors, comparisons on numbers, == / != also on
